@@ -19,7 +19,8 @@ DERIVED = {"self.samplers_id_table": "rebuilt by __init__ from scheduler.sampler
 
 
 def run(repo, reg, prop, tier):
-    groups = c04.json_backend(repo) + c01.d4_config_independence(repo) + c01.d2_reset_completeness(repo)
+    groups = c04.json_backend(repo) + c01.d4_config_independence(repo) + c01.d2_reset_completeness(repo) + \
+        c01.d6_generator_ownership(repo)
     key = f"{CA}::Calibrator.calibrate"
     try:
         rs = c04._fn(repo, f"{CA}::Calibrator.restore_from_checkpoint")  # noqa: SLF001
